@@ -181,6 +181,10 @@ func (e c16Env) exec(a c16Assign, dbOverride, logLayoutFor string, cmd ...string
 		os.MkdirAll(filepath.Join(e.home, ".hranoprovod"), 0o755)
 		os.WriteFile(filepath.Join(e.home, ".hranoprovod", "config"), []byte(other), 0o644)
 	}
+	if len(a.String())%5 == 1 {
+		// the switch that would drop the book, spelled with an explicit false value: nothing changes
+		args = append(args, []string{"--no-database=false", "--no-database=0", "--no-database=F"}[len(a.String())%3])
+	}
 	layoutLevel := a.level("date-format")
 	layout := c16Layouts[layoutLevel]
 	if a.flag["database"] && dbOverride == "" {
